@@ -7,8 +7,11 @@ use std::path::{Path, PathBuf};
 use std::sync::atomic::{AtomicU64, Ordering};
 
 thread_local! {
+    // virtual time: a timer that is the only thing left to wait for fires at once, so the 5 s wait
+    // of a simulation issued while a block is open ends in its time-out branch immediately
     static RT: tokio::runtime::Runtime = tokio::runtime::Builder::new_current_thread()
         .enable_all()
+        .start_paused(true)
         .build()
         .expect("tokio runtime");
 }
@@ -164,6 +167,10 @@ impl Inst {
         Inst { dir: dir.to_path_buf(), methods: Some(methods), engine, broken: false, uses: 0, owns_dir: false }
     }
 
+    pub fn methods(&self) -> &Methods {
+        self.methods.as_ref().expect("instance closed")
+    }
+
     pub fn engine(&self) -> &BRC20ProgEngine {
         assert!(self.methods.is_some());
         // SAFETY: the engine lives inside the Arc<RpcServer> owned by `self.methods`
@@ -262,5 +269,16 @@ impl Drop for Inst {
         if self.owns_dir {
             let _ = std::fs::remove_dir_all(&self.dir);
         }
+    }
+}
+
+/// Issue a request on a dispatch table from any thread (each thread has its own runtime).
+pub fn call_on(methods: &Methods, method: &str, params: &Value) -> CallOutcome {
+    let req = json!({"jsonrpc": "2.0", "id": 1, "method": method, "params": params}).to_string();
+    let r = catch_unwind(AssertUnwindSafe(|| RT.with(|rt| rt.block_on(methods.raw_json_request(&req, 1)))));
+    match r {
+        Ok(Ok((resp, _))) => CallOutcome::Resp(serde_json::from_str(resp.get()).expect("response json")),
+        Ok(Err(e)) => CallOutcome::Resp(json!({"error": {"code": -32700, "message": format!("parse error: {}", e)}})),
+        Err(p) => CallOutcome::Panic(panic_text(&p)),
     }
 }
